@@ -106,7 +106,12 @@ func rankCompletionItemsByScore(scored []scoredItem, counts map[string]int, quer
 			countI = counts[scored[i].item.Label]
 			countJ = counts[scored[j].item.Label]
 		}
-		return countI > countJ
+		if countI != countJ {
+			return countI > countJ
+		}
+		// Equal score and equal use: order by name, so that the list is the same on
+		// every request and a smaller limit cuts a prefix of it.
+		return scored[i].item.Label < scored[j].item.Label
 	})
 
 	items := make([]protocol.CompletionItem, len(scored))
